@@ -15,6 +15,7 @@ mod member;
 mod proc;
 mod render;
 mod runner;
+#[cfg(feature = "engine")]
 mod sem;
 mod src;
 
@@ -26,8 +27,11 @@ fn check_by_id(id: &str) -> Option<Arc<dyn Check>> {
         "C01" => Arc::new(c01::C01),
         "C03" => Arc::new(cjs::C03),
         "C04" => Arc::new(c04::C04),
+        #[cfg(feature = "engine")]
         "C05" => Arc::new(csem::C05),
+        #[cfg(feature = "engine")]
         "C06" => Arc::new(csem::C06),
+        #[cfg(feature = "engine")]
         "C07" => Arc::new(csem::C07),
         "C08" => Arc::new(cpair::C08),
         "C09" => Arc::new(c09::C09),
@@ -124,6 +128,7 @@ fn main() {
             }
         }
         "worker-compile" => compile::worker_main(),
+        #[cfg(feature = "engine")]
         "sem" => {
             let text = std::fs::read_to_string(&args[2]).expect("read");
             let v: serde_json::Value = serde_json::from_str(&text).expect("json");
